@@ -1,5 +1,6 @@
 import OpusModel.RangeCoder
 import OpusModel.RangeCoderCodes
+import OpusModel.SilkSymsEnc
 import Driver.Util
 /-
   Suite `rangecoder` (property C08).  Line protocol (harness/c08_rangecoder.c emits the same):
@@ -29,6 +30,13 @@ import Driver.Util
                   e: b: l: u: r:     plain calls as in `seq`
       answer:  <ok|err> W <values written back by ec_laplace_encode|-> D <st> B <hex size+16>
                X <decoded: L<int> | P<y,…> | S<n>, `|`-separated, or - on err> Y <decoder st|->
+
+    rangecoder sframe <size> <fill> <fs_kHz> <nb_subfr> <lbrr> <cc> <prevSig> <prevLag> <ix> <pulses>
+        (harness/c08_silksyms.c; composition with C03: OpusModel.SilkSymsEnc against OpusModel.SilkSyms)
+        ix      sig,qoff,<gains>,nlsf0,<residuals>,interp,lag,contour,per,<ltp>,scale,seed  (lists `/`-separated, `-` = empty)
+        pulses  `,`-separated, frame_length values
+      answer:  <ok|err> E <st after silk_encode_indices + silk_encode_pulses> D <st after ec_enc_done> B <hex size+16>
+               X <ix decoded by C03's model from the bytes> P <pulses decoded, iter*16 values> Y <decoder st>  (X - P - Y - on err)
 
     rangecoder tf <l> <rlo> <n> <low> <nbits>
         ec_tell / ec_tell_frac for rng = (r << (l-16)) + (low ? 2^(l-16)-1 : 0), r = rlo..rlo+n-1,
@@ -138,7 +146,54 @@ def runCseq (size fill : Nat) (cs : List Code) : String :=
       | r => head ++ " X " ++ faultStr r
   | r => faultStr r
 
+def parseSlash (s : String) : Option (List Int) :=
+  if s = "-" then some [] else (s.splitOn "/").mapM parseInt
+
+def slashStr (l : List Int) : String := if l.isEmpty then "-" else "/".intercalate (l.map toString)
+
+def parseIx (s : String) : Option SilkSyms.Indices :=
+  match s.splitOn "," with
+  | [sig, qoff, gains, n0, res, ip, lag, con, per, ltp, sc, seed] =>
+    match parseNat sig, parseNat qoff, parseSlash gains, parseNat n0, parseSlash res, parseNat ip with
+    | some sig, some qoff, some gains, some n0, some res, some ip =>
+      match parseInt lag, parseNat con, parseNat per, parseSlash ltp, parseNat sc, parseNat seed with
+      | some lag, some con, some per, some ltp, some sc, some seed =>
+        some { signalType := sig, quantOffsetType := qoff, gains := gains.map Int.toNat, nlsf0 := n0, nlsfRes := res, interp := ip, lagIndex := lag, contourIndex := con, perIndex := per, ltp := ltp.map Int.toNat, ltpScale := sc, seed := seed }
+      | _, _, _, _, _, _ => none
+    | _, _, _, _, _, _ => none
+  | _ => none
+
+def ixStr (ix : SilkSyms.Indices) : String :=
+  s!"{ix.signalType},{ix.quantOffsetType},{slashStr (ix.gains.map Int.ofNat)},{ix.nlsf0},{slashStr ix.nlsfRes},{ix.interp},{ix.lagIndex},{ix.contourIndex},{ix.perIndex},{slashStr (ix.ltp.map Int.ofNat)},{ix.ltpScale},{ix.seed}"
+
+def runSframe (size fill : Nat) (rate : SilkSyms.Rate) (nb lbrr cc prevSig : Nat) (prevLag : Int) (ix : SilkSyms.Indices)
+    (pulses : List Int) : String :=
+  let phys := (List.range (size + 16)).map (fun i => (fill + 37 * i) % 256)
+  match SilkSymsEnc.encodeFrame rate nb (lbrr ≠ 0) cc prevSig prevLag ix pulses with
+  | .ok ops =>
+    let e1 := encRun (encInit phys size) ops
+    let e2 := encDone e1
+    let tag := if e2.error = 0 then "ok" else "err"
+    let head := s!"{tag} E {stStr e1} D {stStr e2} B {toHex e2.buf}"
+    if e2.error ≠ 0 then head ++ " X - P - Y -"
+    else
+      let d0 := decInit (e2.buf.take e2.storage) e2.storage
+      let (ix', d1) := SilkSyms.decodeIndices rate nb (decide (lbrr ≠ 0 ∨ ix.signalType ≠ 0)) cc prevSig prevLag d0
+      let (pu, d2) := SilkSyms.decodePulses ix'.signalType ix'.quantOffsetType (SilkSyms.frameLength rate nb) d1
+      head ++ s!" X {ixStr ix'} P {intList pu.pulses} Y {stStr d2}"
+  | r => faultStr r
+
 def handle : List String → String
+  | ["sframe", size, fill, fs, nb, lbrr, cc, prevSig, prevLag, ix, pulses] =>
+    match parseNat size, parseNat fill, parseNat fs, parseNat nb, parseNat lbrr, parseNat cc with
+    | some size, some fill, some fs, some nb, some lbrr, some cc =>
+      match parseNat prevSig, parseInt prevLag, parseIx ix, parseIntList pulses with
+      | some prevSig, some prevLag, some ix, some pulses =>
+        match (if fs = 8 then some SilkSyms.Rate.nb else if fs = 12 then some .mb else if fs = 16 then some .wb else none) with
+        | some rate => runSframe size fill rate nb lbrr cc prevSig prevLag ix pulses
+        | none => "bad-op"
+      | _, _, _, _ => "bad-op"
+    | _, _, _, _, _, _ => "bad-op"
   | ["cseq", size, fill, codes] =>
     match parseNat size, parseNat fill, (codes.splitOn ";").mapM parseCode with
     | some size, some fill, some cs => runCseq size fill cs
